@@ -861,4 +861,27 @@ theorem run_inv {G : List Entry} (hG : Sorted G) (ops : List Op) :
     intro nd hi hok
     exact ih (step nd op) (step_inv hG hi op hok.1) hok.2
 
+theorem specSM_eq (G : List Entry) (la : Option LogId) : specSM G la = smOf G (oidx la) := rfl
+
+theorem mem_prefixDisks_take (d : Disk) (ws : List Write) (n : Nat) :
+    applyWrites d (ws.take n) ∈ prefixDisks d ws := by
+  induction ws generalizing d n with
+  | nil => simp [prefixDisks, applyWrites]
+  | cons w ws ih =>
+    cases n with
+    | zero => simp [prefixDisks, applyWrites]
+    | succ n =>
+      simp only [List.take_succ_cons, prefixDisks, applyWrites, List.foldl_cons]
+      exact List.mem_cons_of_mem _ (ih (applyWrite d w) n)
+
+/-- the disk the driver computes for "crash after `n` writes" is one of the crash disks of the theorem -/
+theorem crashDiskAt_mem (nd : Node) (ops : List Op) (n : Nat) : crashDiskAt nd ops n ∈ crashDisks nd ops := by
+  induction ops generalizing nd n with
+  | nil => simp [crashDiskAt, crashDisks]
+  | cons op ops ih =>
+    simp only [crashDiskAt, crashDisks]
+    split
+    · exact List.mem_append_left _ (mem_prefixDisks_take _ _ _)
+    · exact List.mem_append_right _ (ih _ _)
+
 end Varpulis.RaftStore
